@@ -364,7 +364,23 @@ impl Property for C14 {
         let mut binary_runs = 0u64;
         let mut bad: Option<(Scenario, Violation)> = None;
         'outer: for i in 0..n {
-            let base = make_scenario(self, seed, i, tier);
+            let mut base = make_scenario(self, seed, i, tier);
+            if i % 8 == 3 {
+                // long lines of multi-byte characters: the real stdin path and its buffer sizes
+                let n = 700 + (simcore::mix(base.plan.key ^ 0x10E6) % 6000) as usize;
+                let mut t = String::new();
+                for k in 0..n {
+                    let h = simcore::mix(base.plan.key ^ (k as u64) << 3);
+                    t.push(if h % 7 == 0 { char::from_u32(0x1F300 + (h >> 8) as u32 % 700).unwrap_or('가') } else { char::from_u32(0xAC00 + (h >> 8) as u32 % 11172).unwrap_or('가') });
+                }
+                if i % 16 == 3 {
+                    t.push('\n');
+                }
+                base.stdin = t.into_bytes();
+                if base.knob("family") == 0 {
+                    base.set_knob("k", (base.knob("k")).min(300));
+                }
+            }
             let chunks = real::chunks_from_plan(&base.plan, 256);
             // compiled: the input against every compiled family member at one level, all levels in rotation
             for (j, (fam, k, level, exe)) in exes.iter().enumerate() {
